@@ -5,6 +5,7 @@ import (
 	"encoding/json"
 	"fmt"
 	"math"
+	"math/rand"
 	"reflect"
 	"strings"
 	"time"
@@ -101,7 +102,7 @@ func guardMut(f func() mutRes) (r mutRes) {
 // bisected down to the single inputs responsible.
 func runBatch(req mutReq) []mutRes {
 	var out []mutRes
-	outcome, msg := isolated("mut", req, &out, time.Duration(5+len(req.Inputs)/20)*time.Second)
+	outcome, msg := isolated("mut", req, &out, time.Duration(10+len(req.Inputs)/10)*time.Second)
 	if outcome == "ok" && len(out) == len(req.Inputs) {
 		return out
 	}
@@ -122,6 +123,34 @@ func runBatch(req mutReq) []mutRes {
 	a, b := req, req
 	a.Inputs, b.Inputs = req.Inputs[:mid], req.Inputs[mid:]
 	return append(runBatch(a), runBatch(b)...)
+}
+
+// runEach runs the inputs one per call with a short deadline: for schemas on which the recorded
+// zero-width findings make timeouts expected, so that each costs one short deadline instead of
+// a bisection of long ones. Such outcomes are budgeted apart from the unexpected ones.
+var zwSlow int
+
+const zwBudget = 4
+
+func runEach(req mutReq) []mutRes {
+	out := make([]mutRes, len(req.Inputs))
+	for i := range req.Inputs {
+		if zwSlow >= zwBudget {
+			out[i] = mutRes{Class: "skipped"}
+			continue
+		}
+		one := req
+		one.Inputs = req.Inputs[i : i+1]
+		var res []mutRes
+		outcome, msg := isolated("mut", one, &res, 3*time.Second)
+		if outcome == "ok" && len(res) == 1 {
+			out[i] = res[0]
+			continue
+		}
+		zwSlow++
+		out[i] = mutRes{Class: outcome, Msg: msg}
+	}
+	return out
 }
 
 // ---- mutation of a valid encoding ----------------------------------------------
@@ -256,6 +285,67 @@ func hasZeroWidthItems(s avro.Schema) bool {
 	return false
 }
 
+func zwKeyOf(items, records bool) string {
+	switch {
+	case records:
+		return "zero-width-records"
+	case items:
+		return "zero-width-items"
+	}
+	return ""
+}
+
+// zeroWidthProbes: the two recorded findings on fixed inputs, so that every run re-establishes
+// them (or shows them gone) whatever the generator happened to draw. A short deadline each:
+// the declared count is 2^40.
+func zeroWidthProbes(r *Run) {
+	s, err := avro.SchemaFromString(`{"type":"record","name":"P","fields":[{"name":"a","type":{"type":"array","items":"null"}}]}`)
+	if err != nil {
+		panic(err)
+	}
+	rng := rand.New(rand.NewSource(6)) // not the run's generator: the probes leave the drawn cases as they were
+	g := compatTarget(rng, s)
+	body := append(specVarint(1<<40), 0)
+	var out []mutRes
+	req := mutReq{Schema: schemaJSON(s), Type: g, Inputs: [][]byte{body}, Mode: "read"}
+	outcome, msg := isolated("mut", req, &out, 4*time.Second)
+	res := mutRes{Class: outcome, Msg: msg}
+	if outcome == "ok" && len(out) == 1 {
+		res = out[0]
+	}
+	r.Count("probe/items/" + res.Class)
+	judge(r, -1, "Codec.Read (fixed probe: array of null declaring 2^40 items)", res, len(body), "zero-width-items",
+		map[string]any{"schema": schemaJSON(s), "target": g.Coq(), "input": hexs(body), "mode": "read"})
+
+	rs, err := avro.SchemaFromString(`{"type":"record","name":"E","fields":[{"name":"n","type":"null"}]}`)
+	if err != nil {
+		panic(err)
+	}
+	rg := compatTarget(rng, rs)
+	sync := []byte("0123456789abcdef")
+	var f []byte
+	f = append(f, 'O', 'b', 'j', 1)
+	f = append(f, specVarint(1)...)
+	f = append(f, specVarint(int64(len("avro.schema")))...)
+	f = append(f, "avro.schema"...)
+	f = append(f, specVarint(int64(len(schemaJSON(rs))))...)
+	f = append(f, schemaJSON(rs)...)
+	f = append(f, 0)
+	f = append(f, sync...)
+	f = append(f, specVarint(1<<40)...)
+	f = append(f, specVarint(0)...)
+	f = append(f, sync...)
+	out = nil
+	outcome, msg = isolated("mut", mutReq{Type: rg, Inputs: [][]byte{f}, Mode: "file"}, &out, 4*time.Second)
+	res = mutRes{Class: outcome, Msg: msg}
+	if outcome == "ok" && len(out) == 1 {
+		res = out[0]
+	}
+	r.Count("probe/records/" + res.Class)
+	judge(r, -1, "ReadFile (fixed probe: block of zero-byte records declaring 2^40 records)", res, len(f), "zero-width-records",
+		map[string]any{"schema": schemaJSON(rs), "target": rg.Coq(), "input": hexs(f), "mode": "file"})
+}
+
 func allocLimit(n int) uint64 { return uint64(64*n) + 1<<20 }
 
 // slowOutcomes counts crashes and timeouts: each costs a child process and a
@@ -273,7 +363,7 @@ func tooSlow(r *Run) bool {
 	return false
 }
 
-func judge(r *Run, id int, what string, res mutRes, inputLen int, zw bool, desc map[string]any) {
+func judge(r *Run, id int, what string, res mutRes, inputLen int, zwKey string, desc map[string]any) {
 	key := ""
 	switch res.Class {
 	case "panic":
@@ -292,13 +382,14 @@ func judge(r *Run, id int, what string, res mutRes, inputLen int, zw bool, desc 
 	if key == "" {
 		return
 	}
-	if zw && (key == "hang" || key == "allocation" || key == "crash") {
-		key = "zero-width-items"
+	if zwKey != "" && (key == "hang" || key == "allocation" || key == "crash") {
+		key = zwKey
 	}
 	r.Fail(id, key, fmt.Sprintf("%s on %d bytes of input: %s %s (allocated %d bytes)", what, inputLen, res.Class, res.Msg, res.Alloc), desc)
 }
 
 func runC06(r *Run) {
+	zeroWidthProbes(r)
 	// (a) record bodies: decode and skip paths of built codecs
 	nbase := r.N(40, 300)
 	per := r.N(70, 200)
@@ -327,7 +418,13 @@ func runC06(r *Run) {
 			if mode == "skip" {
 				tg = emptyTarget() // every field skipped
 			}
-			res := runBatch(mutReq{Schema: schemaJSON(s), Type: tg, Inputs: ms, Mode: mode})
+			req := mutReq{Schema: schemaJSON(s), Type: tg, Inputs: ms, Mode: mode}
+			var res []mutRes
+			if zw {
+				res = runEach(req)
+			} else {
+				res = runBatch(req)
+			}
 			for k, m := range ms {
 				desc := map[string]any{"schema": schemaJSON(s), "target": tg.Coq(), "valid": hexs(enc), "input": hexs(m), "mode": mode}
 				rr := res[k]
@@ -342,7 +439,7 @@ func runC06(r *Run) {
 					}
 				}
 				r.Count(mode + "/" + rr.Class)
-				judge(r, id, "Codec."+strings.Title(mode), rr, len(m), zw, desc)
+				judge(r, id, "Codec."+strings.Title(mode), rr, len(m), zwKeyOf(zw, false), desc)
 			}
 		}
 	}
@@ -352,8 +449,10 @@ func runC06(r *Run) {
 	for i := 0; i < nfiles && !tooSlow(r); i++ {
 		gf := genFile(r, 4)
 		zw := hasZeroWidthItems(gf.s)
+		// a block of records that occupy zero bytes is the same count-driven loop one level up
+		zwRec := zeroWidth(gf.s)
 		ms := mutants(r, gf.file, r.N(120, 600))
-		if zw && len(ms) > 12 {
+		if (zw || zwRec) && len(ms) > 12 {
 			ms = ms[:12]
 		}
 		// damaged length fields of blocks and metadata explicitly
@@ -363,7 +462,13 @@ func runC06(r *Run) {
 			m2 := append(append(append([]byte{}, gf.file[:5]...), hv...), gf.file[5:]...) // inside the metadata map
 			ms = append(ms, m2)
 		}
-		res := runBatch(mutReq{Type: gf.g, Inputs: ms, Mode: "file"})
+		req := mutReq{Type: gf.g, Inputs: ms, Mode: "file"}
+		var res []mutRes
+		if zw || zwRec {
+			res = runEach(req)
+		} else {
+			res = runBatch(req)
+		}
 		for k, m := range ms {
 			desc := map[string]any{"schema": schemaJSON(gf.s), "target": gf.g.Coq(), "codec": gf.ct.Codec, "input": hexs(m), "mode": "file"}
 			rr := res[k]
@@ -373,7 +478,7 @@ func runC06(r *Run) {
 				id = addFileCaseCodec(r, gf, m, fr, desc)
 			}
 			r.Count("file/" + rr.Class)
-			judge(r, id, "ReadFile", rr, len(m), zw, desc)
+			judge(r, id, "ReadFile", rr, len(m), zwKeyOf(zw, zwRec), desc)
 		}
 	}
 
@@ -388,7 +493,7 @@ func runC06(r *Run) {
 	}
 	for k, rr := range runBatch(mutReq{Inputs: docs, Mode: "schema"}) {
 		r.Count("schema/" + rr.Class)
-		judge(r, -1, "SchemaFromString", rr, len(docs[k]), false, map[string]any{"mode": "schema", "input": truncBytes(docs[k])})
+		judge(r, -1, "SchemaFromString", rr, len(docs[k]), "", map[string]any{"mode": "schema", "input": truncBytes(docs[k])})
 	}
 	var times [][]byte
 	for _, base := range []string{"2006-01-02T13:37:42.326876123+08:21", "2006-01-02T13:37:42Z", "1970-01-01", "2006-01-02T13:37:42,5Z"} {
@@ -396,7 +501,7 @@ func runC06(r *Run) {
 	}
 	for k, rr := range runBatch(mutReq{Inputs: times, Mode: "time"}) {
 		r.Count("time/" + rr.Class)
-		judge(r, -1, "timestamp parsing", rr, len(times[k]), false, map[string]any{"mode": "time", "input": string(times[k])})
+		judge(r, -1, "timestamp parsing", rr, len(times[k]), "", map[string]any{"mode": "time", "input": string(times[k])})
 	}
 	r.Extra["evaluations_without_model_case"] = len(docs) + len(times)
 }
